@@ -320,3 +320,278 @@ theorem own1 {i : Instr} {a x : F1} {g : G} {p : Proc} (hΓ : Γ1 a g p) (hreq :
     exact ⟨hkeep (hΓ.nextOk h).1, exec_nextBuilt g p (hΓ.nextOk h).2 h5.1 h5.2.1 h5.2.2 c2 c3⟩
 
 end NA.C19
+
+namespace NA.C19
+
+/-- If the lock is held by somebody else, none of `q`'s facts can be claimed. -/
+theorem Γ1.vacuous {b : F1} {g g' : G} {q : Proc} {pid : Nat} (h : Γ1 b g q) (hl : g.lock = some pid)
+    (hne : q.pid ≠ pid) : Γ1 b g' q := by
+  have no : g.lock = some q.pid → False := by
+    intro h1; rw [hl] at h1; injection h1 with h1; exact hne h1.symm
+  exact ⟨fun hb => (no (h.holds hb)).elim, fun hb => (no (h.nextOk hb).1).elim,
+         fun hb => (no (h.dirOk hb).1).elim, fun hb => (no (h.tch hb)).elim⟩
+
+theorem Γ1.congr {b : F1} {g g' : G} {q : Proc} (h : Γ1 b g q) (h1 : g'.lock = g.lock) (h2 : g'.next = g.next)
+    (h3 : g'.dirs = g.dirs) : Γ1 b g' q := by
+  refine ⟨fun hb => h1 ▸ h.holds hb, fun hb => ?_, fun hb => ?_, fun hb => h1 ▸ h.tch hb⟩
+  · rw [h1, h2]; exact h.nextOk hb
+  · rw [h1, h3]; exact h.dirOk hb
+
+/-- Steps of another process do not disturb `q`'s facts (that process writes only under the lock). -/
+theorem other1 {c : Cmd} {b : F1} {g : G} {p q : Proc} (h : Γ1 b g q) (hne : q.pid ≠ p.pid)
+    (hmut : c.mutating = true → g.lock = some p.pid) : Γ1 b (exec c g p).1 q := by
+  cases hm : c.mutating
+  · obtain ⟨h2, h3, _⟩ := exec_nonmut g p hm
+    rcases exec_lock c g p with h1 | ⟨h0, _⟩
+    · exact h.congr h1 h2 h3
+    · have no : g.lock = some q.pid → False := by intro h1; rw [h0] at h1; cases h1
+      exact ⟨fun hb => (no (h.holds hb)).elim, fun hb => (no (h.nextOk hb).1).elim,
+             fun hb => (no (h.dirOk hb).1).elim, fun hb => (no (h.tch hb)).elim⟩
+  · exact h.vacuous (hmut hm) hne
+
+theorem Γ1.release {b : F1} {g : G} {q : Proc} {pid : Nat} (h : Γ1 b g q) (hne : q.pid ≠ pid) :
+    Γ1 b (release g pid) q := by
+  unfold NA.C19.release
+  split
+  · next hl => exact h.vacuous hl hne
+  · exact h
+
+theorem GI1.congr {g g' : G} (h : GI1 g) (h1 : g'.dirs = g.dirs) (h2 : g'.current = g.current) : GI1 g' :=
+  ⟨fun n d => by rw [h1]; exact h.dirs n d, fun n => by rw [h1, h2]; exact h.cur n⟩
+
+theorem GI1.release {g : G} {pid : Nat} (h : GI1 g) : GI1 (release g pid) := by
+  unfold NA.C19.release
+  split
+  · exact h.congr rfl rfl
+  · exact h
+
+/-- Own step keeps the global part. -/
+theorem gi1_exec {c : Cmd} {a : F1} {g : G} {p : Proc} (h : GI1 g) (hΓ : Γ1 a g p) (hreq : req1 c a = true) :
+    GI1 (exec c g p).1 := by
+  constructor
+  · apply exec_dirs_built g p h.dirs
+    intro hc; subst hc
+    simp [req1] at hreq
+    exact (hΓ.nextOk hreq.2).2
+  · intro n hn
+    by_cases c1 : c = .rmCurrent
+    · subst c1; simp [exec] at hn
+    by_cases c2 : c = .lnCurrent
+    · subst c2
+      simp [req1] at hreq
+      have hd := (hΓ.dirOk hreq.2).2
+      simp only [exec] at hn ⊢
+      split at hn
+      · simp at hn; subst hn; exact hd
+      · next k hk => simp at hn; simpa using h.cur n (by simp_all)
+    · rw [exec_current g p c1 c2] at hn
+      exact exec_dirs_mono g p (h.cur n hn)
+
+/-! ### The invariant over all schedules -/
+
+structure Inv1 (ann : Ann safety) (s : State) : Prop where
+  gi    : GI1 s.g
+  uniq  : UniquePids s.procs
+  fresh : ∀ p ∈ s.procs, p.pid < s.npid
+  procs : ∀ p ∈ s.procs, p.alive = true → ∃ a, safety.at ann p.pc = some a ∧ Γ1 a s.g p
+
+theorem inv1_init {prog : Prog} {ann : Ann safety} (_ : check safety prog ann = true) (se : Bool) :
+    Inv1 ann (init se) :=
+  ⟨⟨fun n d h => by simp [init, lookupDir] at h, fun n h => by simp [init] at h⟩,
+   fun p hp => by simp [init] at hp, fun p hp => by simp [init] at hp, fun p hp => by simp [init] at hp⟩
+
+theorem Γ1_entry (g : G) (p : Proc) (hp : p.touched = false) : Γ1 safety.entry g p :=
+  ⟨fun h => by simp [safety] at h, fun h => by simp [safety] at h, fun h => by simp [safety] at h,
+   fun h => by rw [hp] at h; cases h⟩
+
+theorem inv1_step {prog : Prog} {ann : Ann safety} (hc : check safety prog ann = true) {s : State}
+    (hinv : Inv1 ann s) (e : Event) : Inv1 ann (step prog s e) := by
+  obtain ⟨hgi, huniq, hfresh, hprocs⟩ := hinv
+  cases e with
+  | commit good pol email =>
+    simp only [step]
+    refine ⟨hgi.congr rfl rfl, huniq, hfresh, ?_⟩
+    intro p hp ha
+    obtain ⟨a, h1, h2⟩ := hprocs p hp ha
+    exact ⟨a, h1, h2.congr rfl rfl rfl⟩
+  | spawn =>
+    simp only [step]
+    refine ⟨hgi, ?_, ?_, ?_⟩
+    · intro p hp q hq hpq
+      simp only [List.mem_append, List.mem_singleton] at hp hq
+      rcases hp with hp | hp <;> rcases hq with hq | hq
+      · exact huniq p hp q hq hpq
+      · subst hq; have := hfresh p hp; simp at hpq; omega
+      · subst hp; have := hfresh q hq; simp at hpq; omega
+      · rw [hp, hq]
+    · intro p hp
+      simp only [List.mem_append, List.mem_singleton] at hp
+      rcases hp with hp | hp
+      · have := hfresh p hp; show p.pid < s.npid + 1; omega
+      · subst hp; show s.npid < s.npid + 1; omega
+    · intro p hp ha
+      simp only [List.mem_append, List.mem_singleton] at hp
+      rcases hp with hp | hp
+      · exact hprocs p hp ha
+      · subst hp
+        obtain ⟨a, h1, h2⟩ := check_entry hc
+        exact ⟨a, h1, (Γ1_entry s.g _ rfl).mono h2⟩
+  | kill pid =>
+    simp only [step]
+    cases hf : findProc s.procs pid with
+    | none => exact ⟨hgi, huniq, hfresh, hprocs⟩
+    | some p =>
+      obtain ⟨hpm, hpp⟩ := findProc_some hf
+      by_cases hal : p.alive = true
+      · simp only [hal, if_true]
+        refine ⟨hgi.release, unique_replaceProc huniq, ?_, ?_⟩
+        · intro q hq
+          rcases mem_replaceProc hq with ⟨rfl, _⟩ | ⟨hq1, _⟩
+          · exact hfresh p hpm
+          · exact hfresh q hq1
+        · intro q hq hqa
+          rcases mem_replaceProc hq with ⟨rfl, _⟩ | ⟨hq1, hq2⟩
+          · simp at hqa
+          · obtain ⟨a, h1, h2⟩ := hprocs q hq1 hqa
+            exact ⟨a, h1, h2.release (by simpa [hpp] using hq2)⟩
+      · simp [hal]; exact ⟨hgi, huniq, hfresh, hprocs⟩
+  | step pid =>
+    simp only [step]
+    cases hf : findProc s.procs pid with
+    | none => exact ⟨hgi, huniq, hfresh, hprocs⟩
+    | some p =>
+      obtain ⟨hpm, hpp⟩ := findProc_some hf
+      by_cases hal : p.alive = true
+      · simp only [hal, if_true]
+        obtain ⟨a, ha, hΓ⟩ := hprocs p hpm hal
+        have hlt : p.pc < prog.length := by rw [← check_len hc]; exact at_some_lt ha
+        have hi : instrAt prog p.pc = some prog[p.pc] := by simp [instrAt, hlt]
+        generalize prog[p.pc] = i at hi
+        obtain ⟨hreq, hokl, hfaill, hedge1, hedge2⟩ := check_step hc (by simpa [instrAt] using hi) ha
+        by_cases hex : ∃ n, i.cmd = .exit n
+        · obtain ⟨n, hn⟩ := hex
+          rw [stepProc_exit hi hn]
+          refine ⟨hgi.release, unique_replaceProc huniq, ?_, ?_⟩
+          · intro q hq
+            rcases mem_replaceProc hq with ⟨rfl, _⟩ | ⟨hq1, _⟩
+            · exact hfresh p hpm
+            · exact hfresh q hq1
+          · intro q hq hqa
+            rcases mem_replaceProc hq with ⟨rfl, _⟩ | ⟨hq1, hq2⟩
+            · simp at hqa
+            · obtain ⟨b, h1, h2⟩ := hprocs q hq1 hqa
+              exact ⟨b, h1, h2.release (by simpa using hq2)⟩
+        · have hne : ∀ n, i.cmd ≠ .exit n := fun n h => hex ⟨n, h⟩
+          rw [stepProc_nonexit hi hne]
+          have hmut : i.cmd.mutating = true → s.g.lock = some p.pid := by
+            intro hm
+            have : a.holds = true := by
+              have hr : req1 i.cmd a = true := hreq
+              simp [req1, hm] at hr; exact hr.1
+            exact hΓ.holds this
+          refine ⟨gi1_exec hgi hΓ hreq, unique_replaceProc huniq, ?_, ?_⟩
+          · intro q hq
+            rcases mem_replaceProc hq with ⟨rfl, _⟩ | ⟨hq1, _⟩
+            · rw [after_pid]; exact hfresh p hpm
+            · exact hfresh q hq1
+          · intro q hq hqa
+            rcases mem_replaceProc hq with ⟨rfl, _⟩ | ⟨hq1, hq2⟩
+            · -- the process that moved
+              have htf : ∃ x, tf1 i.cmd a (exec i.cmd s.g p).2.2 = some x := by simp [tf1]
+              obtain ⟨x, hx⟩ := htf
+              have hΓ' := own1 hΓ hreq hx
+              cases hok : (exec i.cmd s.g p).2.2
+              · obtain ⟨b, hb1, hb2⟩ := hedge2 x (by rw [hok] at hx; exact hx)
+                refine ⟨b, ?_, hΓ'.mono hb2⟩
+                simp [after, hok]; exact hb1
+              · obtain ⟨b, hb1, hb2⟩ := hedge1 x (by rw [hok] at hx; exact hx)
+                refine ⟨b, ?_, hΓ'.mono hb2⟩
+                simp [after, hok]; exact hb1
+            · obtain ⟨b, h1, h2⟩ := hprocs q hq1 hqa
+              rw [after_pid] at hq2
+              exact ⟨b, h1, other1 h2 hq2 hmut⟩
+      · simp [hal]; exact ⟨hgi, huniq, hfresh, hprocs⟩
+
+theorem inv1_run {prog : Prog} {ann : Ann safety} (hc : check safety prog ann = true) (se : Bool)
+    (es : List Event) : Inv1 ann (run prog se es) := by
+  unfold run
+  have h0 : Inv1 ann (init se) := inv1_init hc se
+  generalize init se = s0 at h0
+  induction es generalizing s0 with
+  | nil => exact h0
+  | cons e es ih => exact ih _ (inv1_step hc h0 e)
+
+end NA.C19
+
+namespace NA.C19
+
+/-- A live process that has started to write, or is about to. -/
+def works (prog : Prog) (p : Proc) : Bool :=
+  p.alive && (p.touched || ((instrAt prog p.pc).map (·.cmd.mutating)).getD false)
+
+theorem works_holds {prog : Prog} {ann : Ann safety} (hc : check safety prog ann = true) {s : State}
+    (hinv : Inv1 ann s) {p : Proc} (hp : p ∈ s.procs) (hw : works prog p = true) : s.g.lock = some p.pid := by
+  simp only [works, Bool.and_eq_true, Bool.or_eq_true] at hw
+  obtain ⟨hal, hw⟩ := hw
+  obtain ⟨a, ha, hΓ⟩ := hinv.procs p hp hal
+  rcases hw with hw | hw
+  · exact hΓ.tch hw
+  · cases hi : instrAt prog p.pc with
+    | none => simp [hi] at hw
+    | some i =>
+      simp [hi] at hw
+      obtain ⟨hreq, _⟩ := check_step hc (by simpa [instrAt] using hi) ha
+      have hr : req1 i.cmd a = true := hreq
+      simp [req1, hw] at hr
+      exact hΓ.holds hr.1
+
+/-- Whoever changes `current` is a live process whose `p$POLICY` directory exists and is compiled. -/
+theorem current_change {prog : Prog} {ann : Ann safety} (hc : check safety prog ann = true) {s : State}
+    (hinv : Inv1 ann s) (e : Event) (hch : (step prog s e).g.current ≠ s.g.current) :
+    ∃ pid p d, e = .step pid ∧ findProc s.procs pid = some p ∧ p.alive = true ∧
+      s.g.lock = some p.pid ∧ lookupDir s.g.dirs p.policy = some d ∧ d.built = true := by
+  cases e with
+  | commit good pol email => simp [step, applyCommit] at hch
+  | spawn => simp [step] at hch
+  | kill pid =>
+    simp only [step] at hch
+    cases hf : findProc s.procs pid with
+    | none => simp [hf] at hch
+    | some p =>
+      simp only [hf] at hch
+      split at hch
+      · simp only [release] at hch; split at hch <;> simp at hch
+      · simp at hch
+  | step pid =>
+    simp only [step] at hch
+    cases hf : findProc s.procs pid with
+    | none => simp [hf] at hch
+    | some p =>
+      obtain ⟨hpm, hpp⟩ := findProc_some hf
+      simp only [hf] at hch
+      by_cases hal : p.alive = true
+      · simp only [hal, if_true] at hch
+        obtain ⟨a, ha, hΓ⟩ := hinv.procs p hpm hal
+        have hlt : p.pc < prog.length := by rw [← check_len hc]; exact at_some_lt ha
+        have hi : instrAt prog p.pc = some prog[p.pc] := by simp [instrAt, hlt]
+        generalize prog[p.pc] = i at hi
+        obtain ⟨hreq, _⟩ := check_step hc (by simpa [instrAt] using hi) ha
+        by_cases hex : ∃ n, i.cmd = .exit n
+        · obtain ⟨n, hn⟩ := hex
+          rw [stepProc_exit hi hn] at hch
+          simp only [release] at hch; split at hch <;> simp at hch
+        · have hne : ∀ n, i.cmd ≠ .exit n := fun n h => hex ⟨n, h⟩
+          rw [stepProc_nonexit hi hne] at hch
+          simp only at hch
+          have hr : req1 i.cmd a = true := hreq
+          have hd : a.dirOk = true := by
+            by_cases c1 : i.cmd = .rmCurrent
+            · simp [req1, c1] at hr; exact hr.2
+            by_cases c2 : i.cmd = .lnCurrent
+            · simp [req1, c2] at hr; exact hr.2
+            · exact absurd (exec_current s.g p c1 c2) hch
+          obtain ⟨hl, d, hd2⟩ := hΓ.dirOk hd
+          exact ⟨pid, p, d, rfl, hf, hal, hl, hd2, hinv.gi.dirs _ _ hd2⟩
+      · simp [hal] at hch
+
+end NA.C19
